@@ -19,6 +19,7 @@ package kms
 //@   modifies cgen(this)
 //@   ensures cgen(this) == old(cgen(this)) + 1
 //@   ensures err == nil ==> result != nil && result.KeyId != nil
+//@   ghost ensures err == nil ==> plain(arr(result.Plaintext))
 //@ iface AWSClient.Encrypt
 //@   names ctx, params, optFns
 //@   ensures err == nil ==> result != nil
@@ -43,11 +44,13 @@ package kms
 //@   ensures cgen(r.Client) == old(cgen(r.Client)) + 1
 //@   ensures err == nil ==> resp != nil && resp.KeyId != nil
 //@   ensures [C17:regional-generate-asks-for-an-aes256-key-under-its-master-key] ncalls(GenerateDataKey) == 1 && resp == ret(GenerateDataKey, 1, 0)
+//@   ensures [C03,C17:generated-data-key-is-key-material] err == nil ==> plain(arr(resp.Plaintext))
 //@ func (*regionalClient).EncryptKey
 //@   names r, ctx, keyBytes
-//@   facet C17
+//@   facet C17, C03
 //@   safety C17
 //@   requires r != nil && r.Client != nil
+//@   requires [C03,C17:given-the-data-key-s-plaintext] plain(arr(keyBytes))
 //@   ensures err == nil ==> resp != nil
 //@   ensures [C17:regional-encrypt-wraps-the-given-bytes-under-its-master-key] ncalls(Encrypt) == 1 && arg(Encrypt, 1, params).Plaintext == keyBytes && resp == ret(Encrypt, 1, 0)
 
@@ -64,6 +67,7 @@ package kms
 //@   ensures (err == nil) == (result != nil)
 //@   ensures [C17:wrap-fails-only-when-every-region-failed] err != nil ==> (forall j int :: 0 <= j && j < len(a.clients) ==> cgen(a.clients[j].Client) == old(cgen(a.clients[j].Client)) + 1)
 //@   ensures [C17:first-region-able-to-generate-is-used] err == nil ==> result.KeyId != nil
+//@   ensures [C03,C17:generated-data-key-is-key-material] err == nil ==> plain(arr(result.Plaintext))
 //@   ensures [C17:no-region-is-skipped-on-the-way] forall x int, y int :: 0 <= x && x < y && y < len(a.clients) && cgen(a.clients[y].Client) != old(cgen(a.clients[y].Client)) ==> cgen(a.clients[x].Client) == old(cgen(a.clients[x].Client)) + 1
 
 //@ func (*AWSKMS).DecryptKey
@@ -87,7 +91,7 @@ package kms
 //@   facet C17
 //@   safety C17
 //@   opt no-frame
-//@   requires c.Client != nil && dataKey != nil && ch != nil && !chclosed(ch)
+//@   requires c.Client != nil && dataKey != nil && ch != nil && !chclosed(ch) && plain(arr(dataKey.Plaintext))
 //@   ensures [C17:region-encrypts-the-data-key-through-its-own-client] ncalls(EncryptKey) == 1 && arg(EncryptKey, 1, keyBytes) == dataKey.Plaintext && arg(EncryptKey, 1, r).Client == c.Client && arg(EncryptKey, 1, r).MasterKeyARN == c.MasterKeyARN
 //@   ensures [C17:one-entry-per-successful-region] retis(EncryptKey, 1, 1, nil) ==> chsent(ch) == old(chsent(ch)) + 1 && lastsent(ch).Region == c.Region && lastsent(ch).ARN == c.MasterKeyARN && lastsent(ch).EncryptedKEK == ret(EncryptKey, 1, 0).CiphertextBlob
 //@   ensures [C17:no-entry-for-a-failed-region] !retis(EncryptKey, 1, 1, nil) ==> chsent(ch) == old(chsent(ch))
@@ -98,7 +102,7 @@ package kms
 //@   safety C17
 //@   opt no-frame
 //@   opt allow-go
-//@   requires a != nil && distinctClients2(a) && dataKey != nil && dataKey.KeyId != nil && ch != nil && !chclosed(ch)
+//@   requires a != nil && distinctClients2(a) && dataKey != nil && dataKey.KeyId != nil && ch != nil && !chclosed(ch) && plain(arr(dataKey.Plaintext))
 //@   loop 1 invariant [C17:entries-sent-directly-carry-the-generated-blob] clientsStable(a) && 0 <= iter && iter <= len(a.clients) && !chclosed(ch) && (forall k int :: old(chsent(ch)) <= k && k < chsent(ch) ==> chlog(ch, k).EncryptedKEK == dataKey.CiphertextBlob && chlog(ch, k).ARN == *dataKey.KeyId)
 //@   ensures [C17:channel-closed-once-every-region-is-done] chclosed(ch)
 
@@ -142,6 +146,6 @@ package kms
 //@   facet C17
 //@   opt no-frame
 //@   opt allow-go
-//@   requires a != nil && dataKey != nil && dataKey.KeyId != nil && distinctClients2(a)
+//@   requires a != nil && dataKey != nil && dataKey.KeyId != nil && distinctClients2(a) && plain(arr(dataKey.Plaintext))
 //@   loop 1 invariant [C17:every-entry-received-so-far-is-kept] len(out) == chrecvd(ch) && (forall k int :: 0 <= k && k < len(out) ==> out[k].Region == chlog(ch, k).Region && out[k].ARN == chlog(ch, k).ARN && out[k].EncryptedKEK == chlog(ch, k).EncryptedKEK)
 //@   ensures [C17:every-entry-received-is-kept-in-the-order-received] len(out) == chrecvd(ch) && (forall k int :: 0 <= k && k < len(out) ==> out[k].Region == chlog(ch, k).Region && out[k].ARN == chlog(ch, k).ARN && out[k].EncryptedKEK == chlog(ch, k).EncryptedKEK)
